@@ -290,6 +290,16 @@ func Walk(v ssa.Value, depth int, visit func(ssa.Value) bool) {
 			for _, b := range x.Bindings {
 				rec(b, d-1)
 			}
+		case *ssa.Alloc:
+			for _, r := range *x.Referrers() {
+				if s, ok := r.(*ssa.Store); ok && s.Addr == x {
+					rec(s.Val, d-1)
+				}
+			}
+		case *ssa.Next:
+			rec(x.Iter, d-1)
+		case *ssa.Range:
+			rec(x.X, d-1)
 		}
 	}
 	rec(v, depth)
@@ -345,7 +355,7 @@ func MentionsParam(v ssa.Value, name string) bool {
 // ConstInt returns the integer value of a constant.
 func ConstInt(v ssa.Value) (int64, bool) {
 	c, ok := v.(*ssa.Const)
-	if !ok || c.Value == nil {
+	if !ok || c == nil || c.Value == nil {
 		return 0, false
 	}
 	if c.Value.Kind() != constant.Int {
@@ -357,12 +367,12 @@ func ConstInt(v ssa.Value) (int64, bool) {
 
 func IsNilConst(v ssa.Value) bool {
 	c, ok := v.(*ssa.Const)
-	return ok && c.IsNil()
+	return ok && c != nil && c.IsNil()
 }
 
 func ConstBool(v ssa.Value) (bool, bool) {
 	c, ok := v.(*ssa.Const)
-	if !ok || c.Value == nil || c.Value.Kind() != constant.Bool {
+	if !ok || c == nil || c.Value == nil || c.Value.Kind() != constant.Bool {
 		return false, false
 	}
 	return constant.BoolVal(c.Value), true
@@ -370,7 +380,7 @@ func ConstBool(v ssa.Value) (bool, bool) {
 
 func ConstString(v ssa.Value) (string, bool) {
 	c, ok := v.(*ssa.Const)
-	if !ok || c.Value == nil || c.Value.Kind() != constant.String {
+	if !ok || c == nil || c.Value == nil || c.Value.Kind() != constant.String {
 		return "", false
 	}
 	return constant.StringVal(c.Value), true
@@ -967,7 +977,12 @@ var Zero ssa.Value = (*ssa.Const)(nil)
 // before location at: stores reaching along CFG paths; Zero when a path from the
 // function entry carries no store. Stores made inside nested closures are
 // included conservatively (flow-insensitive).
-func ReachingDefs(a *ssa.Alloc, at Loc) []ssa.Value {
+func ReachingDefs(a *ssa.Alloc, at Loc) []ssa.Value { return ReachingDefsFrom(a, at, nil) }
+
+// ReachingDefsFrom is ReachingDefs restricted to paths that start just after
+// instruction `stop`: a backward walk that arrives at stop without having seen
+// a store yields Zero (the variable was not assigned since stop).
+func ReachingDefsFrom(a *ssa.Alloc, at Loc, stop ssa.Instruction) []ssa.Value {
 	var out []ssa.Value
 	seenV := map[ssa.Value]bool{}
 	add := func(v ssa.Value) {
@@ -992,10 +1007,28 @@ func ReachingDefs(a *ssa.Alloc, at Loc) []ssa.Value {
 			}
 		}
 	}
+	var fwd map[*ssa.BasicBlock]bool
+	if stop != nil {
+		fwd = map[*ssa.BasicBlock]bool{}
+		work := append([]*ssa.BasicBlock{}, stop.Block().Succs...)
+		for len(work) > 0 {
+			b := work[0]
+			work = work[1:]
+			if fwd[b] {
+				continue
+			}
+			fwd[b] = true
+			work = append(work, b.Succs...)
+		}
+	}
 	seenB := map[*ssa.BasicBlock]bool{}
 	var back func(b *ssa.BasicBlock, idx int)
 	back = func(b *ssa.BasicBlock, idx int) {
 		for i := idx - 1; i >= 0; i-- {
+			if stop != nil && b.Instrs[i] == stop {
+				add(Zero)
+				return
+			}
 			if s, ok := b.Instrs[i].(*ssa.Store); ok && s.Addr == a {
 				add(s.Val)
 				return
@@ -1009,6 +1042,9 @@ func ReachingDefs(a *ssa.Alloc, at Loc) []ssa.Value {
 			if seenB[p] {
 				continue
 			}
+			if fwd != nil && !fwd[p] && p != stop.Block() {
+				continue
+			}
 			seenB[p] = true
 			back(p, len(p.Instrs))
 		}
@@ -1019,7 +1055,10 @@ func ReachingDefs(a *ssa.Alloc, at Loc) []ssa.Value {
 
 // Resolve expands v into the set of values it may denote: phi edges are
 // expanded, loads of local allocs are replaced by their reaching stores.
-func Resolve(v ssa.Value) []ssa.Value {
+func Resolve(v ssa.Value) []ssa.Value { return ResolveFrom(v, nil) }
+
+// ResolveFrom is Resolve with local variables resolved along paths starting after stop.
+func ResolveFrom(v ssa.Value, stop ssa.Instruction) []ssa.Value {
 	var out []ssa.Value
 	seen := map[ssa.Value]bool{}
 	var rec func(v ssa.Value, d int)
@@ -1043,7 +1082,7 @@ func Resolve(v ssa.Value) []ssa.Value {
 		case *ssa.UnOp:
 			if x.Op == token.MUL {
 				if a, ok := x.X.(*ssa.Alloc); ok {
-					for _, dv := range ReachingDefs(a, LocOf(x)) {
+					for _, dv := range ReachingDefsFrom(a, LocOf(x), stop) {
 						rec(dv, d-1)
 					}
 					return
@@ -1086,4 +1125,127 @@ func MustBeNil(v ssa.Value) bool {
 		}
 	}
 	return true
+}
+
+// Unwrap strips type-only conversions (ChangeType, ChangeInterface, MakeInterface, Convert).
+func Unwrap(v ssa.Value) ssa.Value {
+	for {
+		switch x := v.(type) {
+		case *ssa.ChangeType:
+			v = x.X
+		case *ssa.ChangeInterface:
+			v = x.X
+		case *ssa.MakeInterface:
+			v = x.X
+		case *ssa.Convert:
+			v = x.X
+		default:
+			return v
+		}
+	}
+}
+
+// Deref returns the element type of a pointer type (or t itself).
+func Deref(t types.Type) types.Type { return deref(t) }
+
+// ---------------------------------------------------------------- error classification
+
+// ErrKinds classifies the values an error operand may denote relative to an
+// origin error e (may be nil): "nil" (nil constant / zero value), "derived"
+// (e itself or computed from it, e.g. fmt.Errorf("..%v", e)), "fresh" (a newly
+// built or sentinel error: fmt.Errorf/errors.New/global/concrete value), and
+// "unknown" (some other call result or parameter that may or may not be nil).
+func ErrKinds(op ssa.Value, e ssa.Value) map[string]bool { return ErrKindsFrom(op, e, nil) }
+
+// ErrKindsFrom classifies along paths that start after instruction stop.
+func ErrKindsFrom(op ssa.Value, e ssa.Value, stop ssa.Instruction) map[string]bool {
+	out := map[string]bool{}
+	for _, v := range ResolveFrom(op, stop) {
+		switch {
+		case v == Zero || v == nil || IsNilConst(v):
+			out["nil"] = true
+		case e != nil && (v == e || SameVar(v, e) || MentionsValue(v, e)):
+			out["derived"] = true
+		default:
+			switch x := v.(type) {
+			case *ssa.Call:
+				if CalleeIs(x, "fmt.Errorf", "errors.New", "errors.Wrap", "errors.Wrapf", "status.Errorf", "status.Error") {
+					out["fresh"] = true
+				} else {
+					out["unknown"] = true
+				}
+			case *ssa.MakeInterface:
+				out["fresh"] = true
+			case *ssa.UnOp:
+				if _, ok := x.X.(*ssa.Global); ok && x.Op == token.MUL {
+					out["fresh"] = true
+				} else {
+					out["unknown"] = true
+				}
+			default:
+				out["unknown"] = true
+			}
+		}
+	}
+	return out
+}
+
+// MaySucceed: the return's error operand may be nil (nil constant, zero value,
+// or an error value of unknown nil-ness such as another call's result).
+func MaySucceed(r *ssa.Return) bool {
+	op := ReturnErrOperand(r)
+	if op == nil {
+		return false
+	}
+	k := ErrKinds(op, nil)
+	return k["nil"] || k["unknown"]
+}
+
+// ReturnMaySucceed: the return may hand back a nil error: its operand may be the
+// nil constant / zero value, or a value of unknown nil-ness that is not known
+// non-nil on every path to the return (x != nil / x == sentinel edges).
+func ReturnMaySucceed(fn *ssa.Function, r *ssa.Return) bool {
+	op := ReturnErrOperand(r)
+	if op == nil {
+		return false
+	}
+	for _, v := range Resolve(op) {
+		if v == Zero || v == nil || IsNilConst(v) {
+			return true
+		}
+		k := ErrKinds(v, nil)
+		if !k["unknown"] {
+			continue
+		}
+		nonNil := func(cond ssa.Value) (bool, bool) {
+			b, ok := cond.(*ssa.BinOp)
+			if !ok || (b.Op != token.EQL && b.Op != token.NEQ) {
+				return false, false
+			}
+			x, y := b.X, b.Y
+			if !SameVar(x, v) {
+				x, y = y, x
+			}
+			if !SameVar(x, v) {
+				return false, false
+			}
+			if IsNilConst(y) {
+				return true, b.Op == token.NEQ
+			}
+			if u, ok := y.(*ssa.UnOp); ok && u.Op == token.MUL {
+				if _, isG := u.X.(*ssa.Global); isG {
+					return true, b.Op == token.EQL
+				}
+			}
+			return false, false
+		}
+		cut := PassEdges(fn, nonNil)
+		if len(cut) == 0 {
+			return true
+		}
+		if hit, _ := Search(Entry(fn), Is(r), SearchOpt{Cut: cut}); hit != nil {
+			return true
+		}
+	}
+	return false
 }
